@@ -76,6 +76,35 @@ CHECKS.update({
     'DESIGN.md §4 C08'),
 })
 
+CHECKS.update({
+ 'C04': ('E3-spend-shapes',
+    'exhaustive enumeration of spend shapes: 14 covenant families (always-true/false, legacy and new signature, hash-lock, time-lock, index-bound, value-bound, undecodable, denomination / parent-index / additional-data readers, failing) x every assignment to 1, 2 and 3 input positions (same family twice uses its two coins) x covenant list {complete, missing first/last, extra, wrong bytes of the same length} x signatures {valid, bit-flipped, wrong key, wrong slot, signed before the data changed, none} x data {preimage, wrong}, at height 1 (same block as funding) and height 2, plus height-0 spends of the genesis coin and every program of length <= 3 (thorough 4) over an 18-symbol environment-reading alphabet; oracle per input from the reference VM and melvm on (transaction, own environment): apply_tx accepts iff every input covenant is present, decodable and truthy',
+    'Bounded exhaustive enumeration through the real apply_tx with an oracle that does not go through validate_tx_scripts: the expected verdict is computed input by input on that input own spending environment; necessity and sufficiency are both checked because every other acceptance condition holds by construction.',
+    'Trusted: the reference VM (cross-checked against melvm on every evaluation), Ed25519 with fixed keys. Covenants outside the families / alphabet and more than 3 inputs are not covered.',
+    'DESIGN.md §4 C04'),
+ 'C05': ('E3-parameter-grid + E1-state-graph-search',
+    'exhaustive grid: fee multipliers {0,1,2,65535,65536,65537,10^6,2^40,2^64,2^90} x inputs {1,2,3} x outputs {0,1,2,3,255} x 7 extra covenants of weight 0..~10^8 x data length {0,1,100} x fee - minimum in {-1000,-2,-1,0,1,2,1000} (fee iterated to the fixed point fee = min(tx)), oracle: accepted iff fee >= reference minimum, fee pool += minimum, tips += remainder; then breadth-first search over histories with over-paying transfers and seals with/without proposer actions at multipliers 0, 65536, 10^6 to depth 9/8/8 (thorough 11/10/10), oracle: reward coin = (fee pool of seal(None) >> 16) + tips, fee pool decreases by exactly that part, tips restart at 0',
+    'Bounded exhaustive sweep and state-graph search through the real apply_tx / seal with exact arithmetic oracles from the statement.',
+    'Trusted: reference covenant weight and stdcode length for the transaction weight; the grid fixtures fund coins with a faucet that pays its own minimum fee.',
+    'DESIGN.md §4 C05'),
+ 'C09': ('E1/E3 hostile alphabet + child processes',
+    'exhaustive product of a hostile transaction alphabet (per kind: values and fees over {0,1,2,2^120-1,2^120,2^120+1,2^127,2^128-2,2^128-1}; output counts {0,1,2,254,255,256,300}; missing/repeated inputs; every pool-name spelling with 0/1/2/all-valued swaps, zero-sided deposits, zero/over-sized withdrawals; stake documents over epoch {0,cur,cur+1,2^64-1} and amount boundaries; DoscMint (difficulty, proof) over {0,1,2,3,63,64,65,100,101,127,128,2^32-1} x 8 proof shapes; heavy, undecodable and saturating covenants; oversized signatures and data) x base states (Custom02 height 1 with/without fees, unsealed genesis at height 0, a custom pool with liquidity tokens held, the same pool emptied, Mainnet at 829998, Testnet at 498; thorough adds more TIP boundaries and Custom08) x calls {apply_tx_batch alone / before / after a normal transfer, seal(None), seal(Some delta), next block, apply_block, confirm with garbage proofs}; hostile-covenant spends (data doubling, deep nesting, ...) in child processes with a 2 MiB stack; oracle: every call returns without panic, overflow (overflow checks on), abort or exceeding the watchdog',
+    'Bounded exhaustive fault enumeration on the real entry points with panic capture (catch_unwind + backtrace frame), a watchdog for non-termination and child-process isolation for inputs that can kill the process. Right level: a crash needs one specific boundary value in one specific field of one kind, which the per-field boundary product enumerates.',
+    'Trusted: the watchdog deadline (30 s / 60 s for calls that take microseconds) as the only time judgement; RLIMIT_AS and the 2 MiB thread stack as the validator environment. Field values between the boundary points and combinations of two hostile fields in one transaction are not covered. Every other check also wraps its real calls in catch_unwind and counts panics, but reports them only here.',
+    'DESIGN.md §4 C09'),
+ 'C13': e1('explicit-state breadth-first search to depth 22 (thorough 26) over histories that submit one (thorough two) stake transactions from a grid of documents ((e_start, e_post_end) around the current epoch, amount == / != first output, first output SYM / MEL, truncated / trailing-byte / empty document), try to spend every output of every stake transaction in the same batch (both orders), later in the block, in the next block and - after jumps to the last block of each epoch - in the first block of the next, through epoch end+1; oracles: registered stake set == model (register only if consistent), spending the staked coin rejected while a registered, unexpired stake covers it and never rejected as locked otherwise, votes(e,k) and total_votes(e) == sums over the model, stakes_hash == root of the model stakes',
+    'Bounded exhaustive exploration across epoch boundaries (reached by re-labelling sealed content with from_block) with lock, registration, voting-power and commitment oracles on every state.',
+    'DESIGN.md §4 C13'),
+ 'C18': ('E3 with real proofs through the E1 lock-step oracle',
+    'exhaustive grid with real melpow proofs: coin ages {1,2,3,50} (thorough + {99,100,101}) x (difficulty, hash) in {1,2,4,8,16 legacy; 1,3,8 TIP-910} (thorough + 7 more) x ERG amounts {0, max-1, max, max+1, 2max+1, max split over two outputs} x corruptions {claimed difficulty +-1, trailing byte, truncated, empty data, empty / 39-byte / zero proof, every (or a spread of) 40-byte unit removed or bit-flipped, proof for another coin, proof seeded with another height header}, on Custom02 and Mainnet (age >= 100 rule; thorough + Testnet), two mints in one batch in both orders; oracle: real accepts => the reference verdict (puzzle, verification under either hash, reward bound, age rule) accepts; dosc_speed == max(previous, demonstrated speeds); public calculate_reward / dosc_to_erg == reference transcription over a 3280-point grid',
+    'Bounded exhaustive enumeration through the real apply_tx_batch against a reference transcription of the reward formula and an independent evaluation of the proof with the melpow library.',
+    'Trusted: melpow::Proof::generate/verify as the definition of valid sequential work; BigInt arithmetic. Difficulties above 20 are outside the bound (proof generation cost).',
+    'DESIGN.md §4 C18'),
+ 'C19': e1('explicit-state breadth-first search to depth 7 (thorough 9) on Mainnet, Testnet, Custom02, Custom08 (thorough: all 9 network ids) over 4 faucet shapes incl. the grandfathered mainnet transaction, applied alone, twice in one batch, in mixed batches, later in the block, in later blocks, after a to_block/from_block restart and after a jump; oracle: on mainnet only the grandfathered hash may be accepted; elsewhere a faucet accepted once is rejected everywhere afterwards',
+    'Bounded exhaustive exploration of replay points of faucet transactions on every network through the real apply_tx_batch, in lock-step with the reference duplicate rule.',
+    'DESIGN.md §4 C19'),
+})
+
 NOT_APPLICABLE = {}
 DEFAULT_NA = 'check not built yet (work in progress; see DESIGN.md appendix B)'
 
